@@ -268,7 +268,10 @@ def build_kani_crates(work, programs, annotated, harness_sel, nshards, plain=Non
         body = [CRATE_ALLOW, "pub mod spec;\n"]
         names = []
         for p in ps:
-            top, proofs = C.support_items(p)
+            have_types = None
+            if plain:
+                have_types = {it["name"] for t in plain.values() for it in t[1]["items"] if it["kind"] in ("struct", "enum")}
+            top, proofs = C.support_items(p, have_types)
             body.append(f"pub mod {p.mod} {{\n    use super::spec::*;\n    use arbitrary_int::*;\n")
             for s in p.structs:
                 body.append(s.const_items())
